@@ -3,7 +3,9 @@
      source callbacks: next x = push x ; error e = err := Some e ; done := true ; R(waker) acquire ; clone ; release ; wake
                                           complete =                 done := true ; R(waker) acquire ; clone ; release ; wake
    and a minimal executor: after Pending the poller parks until its token is set (wake sets it), then polls
-   again; spurious re-polls are allowed at any time.  The waker lock is the only blocking primitive: the
+   again; spurious re-polls are allowed at any time.  EVERY poll hands in a new waker (identified by the poll's
+   number t_cur, as an executor that re-polls from a select/join would); the slot keeps the last one; the poller
+   only reacts to the token of its latest waker.  The waker lock is the only blocking primitive: the
    source's read of the waker slot blocks while the poller holds it for writing (across the `done` test and
    the store) and vice versa.  The source's callbacks see a contract-conform sequence (C01): items, then at
    most one terminal.  Definitions only. *)
@@ -15,11 +17,11 @@ Inductive ppc := PPStart | PPHoldW | PPParked | PPReady (err : option nat) (item
 Inductive spc := SItems (rest : list nat) | SErrSet | SDoneSet | SHoldR | SFin.
 Inductive wl := LFree | LPoller | LSource.
 
-Record tv := { t_buf : list nat; t_done : bool; t_err : option nat; t_waker : bool; t_lock : wl; t_token : bool;
+Record tv := { t_buf : list nat; t_done : bool; t_err : option nat; t_waker : option nat; t_lock : wl; t_token : option nat; t_cur : nat;
                t_pp : ppc; t_sp : spc; t_end : tending; t_all : list nat (* the source's whole item script *) }.
 
 Definition tv0 (items : list nat) (en : tending) : tv :=
-  {| t_buf := []; t_done := false; t_err := None; t_waker := false; t_lock := LFree; t_token := false;
+  {| t_buf := []; t_done := false; t_err := None; t_waker := None; t_lock := LFree; t_token := None; t_cur := 0;
      t_pp := PPStart; t_sp := SItems items; t_end := en; t_all := items |}.
 
 Inductive tact := APoll | ASource | ARepoll.     (* who moves: the poller's next atom, the source's next atom, a spurious re-poll *)
@@ -30,50 +32,50 @@ Definition tstep (s : tv) (a : tact) : option tv :=
   | APoll =>
       match t_pp s with
       | PPStart => match t_lock s with
-                  | LFree => Some {| t_buf := t_buf s; t_done := t_done s; t_err := t_err s; t_waker := t_waker s; t_lock := LPoller; t_token := t_token s;
+                  | LFree => Some {| t_buf := t_buf s; t_done := t_done s; t_err := t_err s; t_waker := t_waker s; t_lock := LPoller; t_token := t_token s; t_cur := t_cur s;
                                      t_pp := PPHoldW; t_sp := t_sp s; t_end := t_end s; t_all := t_all s |}
                   | _ => None
                   end
       | PPHoldW =>
           if t_done s then
-            Some {| t_buf := t_buf s; t_done := t_done s; t_err := t_err s; t_waker := t_waker s; t_lock := LFree; t_token := t_token s;
+            Some {| t_buf := t_buf s; t_done := t_done s; t_err := t_err s; t_waker := t_waker s; t_lock := LFree; t_token := t_token s; t_cur := t_cur s;
                     t_pp := PPReady (t_err s) (t_buf s); t_sp := t_sp s; t_end := t_end s; t_all := t_all s |}
           else
-            Some {| t_buf := t_buf s; t_done := t_done s; t_err := t_err s; t_waker := true; t_lock := LFree; t_token := t_token s;
+            Some {| t_buf := t_buf s; t_done := t_done s; t_err := t_err s; t_waker := Some (t_cur s); t_lock := LFree; t_token := t_token s; t_cur := t_cur s;
                     t_pp := PPParked; t_sp := t_sp s; t_end := t_end s; t_all := t_all s |}
-      | PPParked => if t_token s then
-                     Some {| t_buf := t_buf s; t_done := t_done s; t_err := t_err s; t_waker := t_waker s; t_lock := t_lock s; t_token := false;
+      | PPParked => if match t_token s with Some k => Nat.eqb k (t_cur s) | None => false end then
+                     Some {| t_buf := t_buf s; t_done := t_done s; t_err := t_err s; t_waker := t_waker s; t_lock := t_lock s; t_token := None; t_cur := S (t_cur s);
                              t_pp := PPStart; t_sp := t_sp s; t_end := t_end s; t_all := t_all s |}
                    else None
       | PPReady _ _ => None
       end
   | ARepoll =>
       match t_pp s with
-      | PPParked => Some {| t_buf := t_buf s; t_done := t_done s; t_err := t_err s; t_waker := t_waker s; t_lock := t_lock s; t_token := t_token s;
+      | PPParked => Some {| t_buf := t_buf s; t_done := t_done s; t_err := t_err s; t_waker := t_waker s; t_lock := t_lock s; t_token := t_token s; t_cur := S (t_cur s);
                            t_pp := PPStart; t_sp := t_sp s; t_end := t_end s; t_all := t_all s |}
       | _ => None
       end
   | ASource =>
       match t_sp s with
-      | SItems (x :: r) => Some {| t_buf := t_buf s ++ [x]; t_done := t_done s; t_err := t_err s; t_waker := t_waker s; t_lock := t_lock s; t_token := t_token s;
+      | SItems (x :: r) => Some {| t_buf := t_buf s ++ [x]; t_done := t_done s; t_err := t_err s; t_waker := t_waker s; t_lock := t_lock s; t_token := t_token s; t_cur := t_cur s;
                                    t_pp := t_pp s; t_sp := SItems r; t_end := t_end s; t_all := t_all s |}
       | SItems [] =>
           match t_end s with
           | TSilent => None
-          | TError e => Some {| t_buf := t_buf s; t_done := t_done s; t_err := Some e; t_waker := t_waker s; t_lock := t_lock s; t_token := t_token s;
+          | TError e => Some {| t_buf := t_buf s; t_done := t_done s; t_err := Some e; t_waker := t_waker s; t_lock := t_lock s; t_token := t_token s; t_cur := t_cur s;
                                 t_pp := t_pp s; t_sp := SErrSet; t_end := t_end s; t_all := t_all s |}
-          | TComplete => Some {| t_buf := t_buf s; t_done := true; t_err := t_err s; t_waker := t_waker s; t_lock := t_lock s; t_token := t_token s;
+          | TComplete => Some {| t_buf := t_buf s; t_done := true; t_err := t_err s; t_waker := t_waker s; t_lock := t_lock s; t_token := t_token s; t_cur := t_cur s;
                                  t_pp := t_pp s; t_sp := SDoneSet; t_end := t_end s; t_all := t_all s |}
           end
-      | SErrSet => Some {| t_buf := t_buf s; t_done := true; t_err := t_err s; t_waker := t_waker s; t_lock := t_lock s; t_token := t_token s;
+      | SErrSet => Some {| t_buf := t_buf s; t_done := true; t_err := t_err s; t_waker := t_waker s; t_lock := t_lock s; t_token := t_token s; t_cur := t_cur s;
                            t_pp := t_pp s; t_sp := SDoneSet; t_end := t_end s; t_all := t_all s |}
       | SDoneSet => match t_lock s with
-                    | LFree => Some {| t_buf := t_buf s; t_done := t_done s; t_err := t_err s; t_waker := t_waker s; t_lock := LSource; t_token := t_token s;
+                    | LFree => Some {| t_buf := t_buf s; t_done := t_done s; t_err := t_err s; t_waker := t_waker s; t_lock := LSource; t_token := t_token s; t_cur := t_cur s;
                                        t_pp := t_pp s; t_sp := SHoldR; t_end := t_end s; t_all := t_all s |}
                     | _ => None
                     end
       | SHoldR => Some {| t_buf := t_buf s; t_done := t_done s; t_err := t_err s; t_waker := t_waker s; t_lock := LFree;
-                          t_token := t_token s || t_waker s; t_pp := t_pp s; t_sp := SFin; t_end := t_end s; t_all := t_all s |}
+                          t_token := match t_waker s with Some k => Some k | None => t_token s end; t_cur := t_cur s; t_pp := t_pp s; t_sp := SFin; t_end := t_end s; t_all := t_all s |}
       | SFin => None
       end
   end.
